@@ -20,6 +20,7 @@ import (
 	"os"
 	"regexp"
 	"sort"
+	"strconv"
 	"strings"
 	"sync"
 	"time"
@@ -35,7 +36,13 @@ var (
 	// the unicode-space family: characters that Unicode calls spaces but the
 	// rule does not (NBSP, EM SPACE), an astral rune, and the line breaks
 	uniAlpha = []string{"a", "<", " ", "\n", "\r", "N", "M", "A"}
-	uniReal  = map[rune]string{'N': "\u00a0", 'M': "\u2003", 'A': "\U0001F600"}
+	// the bytes family: template text that is NOT valid UTF-8 (a Latin-1 high
+	// byte, a truncated 3-byte sequence, a lone continuation byte, 0xFF); to
+	// the rule each is just a non-whitespace character, and "nothing else"
+	// than joining may change it: the bytes must come out unchanged
+	byteAlpha = []string{"a", "<", " ", "\n", "L", "T", "C", "F"}
+	byteReal  = map[rune]string{'L': "\xe9", 'T': "\xe2\x82", 'C': "\x80", 'F': "\xff"}
+	uniReal   = map[rune]string{'N': "\u00a0", 'M': "\u2003", 'A': "\U0001F600"}
 )
 
 // Run is the entry point for C15.
@@ -54,6 +61,8 @@ func Run(ctx *core.Ctx) {
 	}
 	nText := ctx.Pick(5, 6)
 	nUni := ctx.Pick(4, 5)
+	nByte := ctx.Pick(4, 5)
+	nLit := ctx.Pick(3, 4)
 	nCom := ctx.Pick(5, 7)
 	full := ctx.Pick(4, 5)
 
@@ -104,6 +113,22 @@ func Run(ctx *core.Ctx) {
 			}
 		}
 		TraceFamily(ctx, ctx.Pick(1500, 20000), ctx.Pick(3, 4))
+	}()
+	wg.Add(1)
+	go func() {
+		defer wg.Done()
+		fb, err := EnumerateTexts(ctx, "bytes", byteAlpha, byteReal, nByte)
+		if err != nil {
+			ctx.ToolError("M2 bytes enumeration: %v", err)
+		} else {
+			ReplayTexts(ctx, fb, nByte-1)
+		}
+		bodies, lctx, err := EnumerateLiterals(ctx, nLit)
+		if err != nil {
+			ctx.ToolError("M2 literal enumeration: %v", err)
+		} else {
+			ReplayLiterals(ctx, bodies, lctx)
+		}
 	}()
 	wg.Wait()
 	devs := <-devCh
@@ -159,6 +184,7 @@ var deviations = [][2]string{
 	{"two_spaces", "Equiv"},
 	{"rule_linebreak_verbatim", "AShape"},
 	{"rule_tight_eats_char", "ANonWs"},
+	{"literal_ends_at_fragment", "LitExact"},
 }
 
 func m1Cfg(n int, dev string, invs string) string {
@@ -222,7 +248,12 @@ func ModelCheck(ctx *core.Ctx) map[string]*devResult {
 			defer wg.Done()
 			sem <- struct{}{}
 			defer func() { <-sem }()
-			res, err := runTLC(ctx, core.TLCOpts{Module: "C15Run", Cfg: m1Cfg(4, name, inv), Files: files,
+			dfiles, dn, dreal := files, 4, textReal
+			if name == "literal_ends_at_fragment" {
+				// the literal family: inp is a sequence of atoms
+				dfiles, dn, dreal = map[string][]byte{"C15Run.tla": wrapperModule(litAtoms)}, 2, litReal
+			}
+			res, err := runTLC(ctx, core.TLCOpts{Module: "C15Run", Cfg: m1Cfg(dn, name, inv), Files: dfiles,
 				Workers: 1, Timeout: 3 * time.Minute, Label: "M1-deviation-" + name})
 			if err != nil {
 				ctx.ToolError("M1 deviation %s: %v", name, err)
@@ -231,7 +262,7 @@ func ModelCheck(ctx *core.Ctx) map[string]*devResult {
 			dr := &devResult{Expect: inv, Violated: res.Violated, States: res.Distinct}
 			if ms := reInp.FindAllStringSubmatch(res.Trace, -1); len(ms) > 0 {
 				if v, err := ParseVal(ms[len(ms)-1][1]); err == nil {
-					dr.Counter, _ = v.Text(textReal)
+					dr.Counter, _ = v.Text(dreal)
 				}
 			}
 			if res.Violated != inv {
@@ -256,6 +287,22 @@ func ReplayDeviations(ctx *core.Ctx, fam *TextFamily, devs map[string]*devResult
 	sort.Strings(names)
 	for _, n := range names {
 		d := devs[n]
+		if n == "literal_ends_at_fragment" && d.Violated != "" {
+			ok := true
+			for _, dbl := range []bool{false, true} {
+				g := Seg{K: "lit", S: d.Counter, D: dbl}
+				if strings.Contains(d.Counter, g.source()[len(g.source())-len("{/literal}")-map[bool]int{false: 0, true: 2}[dbl]:]) {
+					continue // the body contains the closing tag of this form
+				}
+				obs := RenderFile(TemplateFile(g.source()))
+				ctx.AddEvals(1)
+				if obs.Err != "" || obs.Out != d.Counter {
+					ok = false // reported by the literal family
+				}
+			}
+			d.RealOK = &ok
+			continue
+		}
 		exp := fam.Expect[d.Counter]
 		if d.Violated == "" || exp == nil {
 			continue
@@ -305,6 +352,8 @@ func Replay(ctx *core.Ctx) {
 		File       string   `json:"file"`
 		Acceptable []string `json:"acceptable"`
 		Verdict    string   `json:"spec"`
+		FileQ      string   `json:"fileQuoted"`
+		AccQ       []string `json:"acceptableQuoted"`
 		Segs       []Seg    `json:"segs"`
 		FilePrefix string   `json:"filePrefix"`
 		Origin     string   `json:"origin"`
@@ -315,7 +364,16 @@ func Replay(ctx *core.Ctx) {
 	}
 	ctx.AddEvals(1)
 	switch rc.Kind {
-	case "text", "comment":
+	case "text", "comment", "literal":
+		if rc.FileQ != "" {
+			// the case holds bytes that JSON cannot carry
+			rc.File, _ = strconv.Unquote(rc.FileQ)
+			rc.Acceptable = nil
+			for _, q := range rc.AccQ {
+				a, _ := strconv.Unquote(q)
+				rc.Acceptable = append(rc.Acceptable, a)
+			}
+		}
 		obs := RenderFile(rc.File)
 		okay := obs.Err == "" && contains(rc.Acceptable, obs.Out)
 		if rc.Verdict == "err" {
